@@ -8,6 +8,8 @@ From Coq Require Import List Bool Arith.
 From FV Require Import Ops Tape.
 Import ListNotations.
 
+Inductive quad := Q0 | Q1 | Q2 | Q3.
+
 Record FL (T : Type) := {
   fl_zero : T; fl_one : T; fl_neg_one : T; fl_two : T; fl_three : T; fl_four : T;
   fl_nan : T; fl_inf : T; fl_neg_inf : T; fl_pi : T; fl_tau : T; fl_neg_pi : T;
@@ -23,6 +25,7 @@ Record FL (T : Type) := {
   fl_bits_eq : T -> T -> bool;                          (* to_bits() == to_bits() *)
   fl_rand : T -> T;                                     (* rng::rand(to_bits) *)
   fl_mix : T -> T -> T;                                 (* from_bits(rng::mix(bits, bits)) *)
+  fl_quadrant : T -> quad;                              (* Interval::quadrant *)
 }.
 
 Section Interval.
@@ -59,9 +62,12 @@ Definition isquare (i : interval) : option interval :=
   else if has_nan i then inan
   else inew (fl_zero _ F) (powi2 (fl_max _ F (fl_abs _ F (lo i)) (fl_abs _ F (hi i)))).
 
-Inductive quad := Q0 | Q1 | Q2 | Q3.
-(* (angle * 2.0 / PI).floor().rem_euclid(4.0) as u8 ; `as u8` of NaN is 0 *)
-Definition quadrant (angle : T) : quad :=
+(* Interval::quadrant: (f64::from(angle) * 2.0 / PI_f64).floor().rem_euclid(4.0) as u8 — a field of
+   the float structure because the f32 instance computes it in binary64 (since the repair of
+   the quadrant computation; in f32 the quotient was off by whole quadrants for large angles). *)
+Definition quadrant (angle : T) : quad := fl_quadrant _ F angle.
+(* the computation before the repair, in the structure's own arithmetic *)
+Definition quadrant_old (angle : T) : quad :=
   let q := fl_rem_euclid _ F (fl_floor _ F (fl_div _ F (fl_mul _ F angle (fl_two _ F)) (fl_pi _ F))) (fl_four _ F) in
   if feq q (fl_one _ F) then Q1 else if feq q (fl_two _ F) then Q2 else if feq q (fl_three _ F) then Q3 else Q0.
 
